@@ -164,7 +164,7 @@ RefHasConfig(cs, lvl) ==
     [] OTHER                         -> FALSE
 
 \* the settings of a config map as a sequence of assignments [lvl, n, v, src |-> "cfg"]; unknown keys become "bad" markers
-Asg(lvl, n, v, src) == [lvl |-> lvl, n |-> n, v |-> v, src |-> src]
+Asg(lvl, n, v, src) == [lvl |-> lvl, n |-> n, v |-> v, src |-> src, o |-> FALSE]      \* o: written as an option --n=...
 RECURSIVE RefCfgAsg(_, _, _), RefCfgAsgI(_, _, _, _, _)
 RefCfgAsgI(cs, lvl, m, ks, i) ==
   IF i > Len(ks) THEN << >>
@@ -187,7 +187,7 @@ RefScan(cs, toks, lvl, np, acc) ==
                       THEN RefScan(cs, Tail(toks), lvl \o <<tk.v.s>>, 0, Append(acc, Asg(lvl, "subcommand", tk.v, "sel")))
                       ELSE Append(acc, Asg(lvl, "?", Bad, "bad"))                                        \* a word nobody takes
             [] tk.k = "opt" ->
-                 IF RefIsOption(cs, lvl, tk.n) THEN RefScan(cs, Tail(toks), lvl, np, Append(acc, Asg(lvl, tk.n, tk.v, "argv")))
+                 IF RefIsOption(cs, lvl, tk.n) THEN RefScan(cs, Tail(toks), lvl, np, Append(acc, [Asg(lvl, tk.n, tk.v, "argv") EXCEPT !.o = TRUE]))
                  ELSE Append(acc, Asg(lvl, tk.n, Bad, "bad"))                                            \* unknown option
             [] tk.k = "cfg" ->
                  IF RefHasConfig(cs, lvl) THEN RefScan(cs, Tail(toks), lvl, np, acc \o RefCfgAsg(cs, lvl, tk.m))
@@ -255,6 +255,21 @@ AlgHasConfig(cs, lvl) ==
     [] LvlKind(cs, lvl) = "cls"    -> AlgAdded(cs, lvl) > 0 \/ \E s \in LvlSubs(cs, lvl) : AlgAdded(cs, lvl \o <<s>>) > 0
     [] LvlKind(cs, lvl) = "method" -> AlgAdded(cs, lvl) > 0 /\ ~HasAction(cs, lvl, "config")
     [] OTHER                       -> FALSE
+
+\* The option strings a parser knows (argparse's _option_string_actions): --name per option, --name+ for list types
+\* (ActionTypeHint.prepare_add_argument, _typehints.py:286-287), --config / --print_config (the strings stay registered
+\* even where remove_actions took the actions away), --help, --print_shtab (shtab is installed here).
+\* argparse classifies EVERY argument of the command line in EVERY enclosing parser before the sub-command gets its share
+\* (argparse._parse_known_args -> _parse_optional -> _get_option_tuples): an option of a sub-command that is not an option
+\* of an enclosing parser but a proper prefix of two or more of its option strings is an "ambiguous option" there.
+IsListType(t) == t \in {"listint", "opt_listint"}
+OptStrings(cs, l) == {"--help", "--config", "--print_config", "--print_shtab"}
+                     \cup {"--" \o Actions(cs, l)[i].dest : i \in {j \in 1..Len(Actions(cs, l)) : ~Actions(cs, l)[j].pos}}
+                     \cup {"--" \o Actions(cs, l)[i].dest \o "+" : i \in {j \in 1..Len(Actions(cs, l)) : ~Actions(cs, l)[j].pos /\ IsListType(Actions(cs, l)[j].t)}}
+IsProperPrefix(p, o) == Len(p) < Len(o) /\ SubSeq(o, 1, Len(p)) = p
+AlgAmbiguous(cs, l, n) == \E k \in 0..(Len(l) - 1) : LET up == SubSeq(l, 1, k) IN
+                            /\ ("--" \o n) \notin OptStrings(cs, up)
+                            /\ Cardinality({o \in OptStrings(cs, up) : IsProperPrefix("--" \o n, o)}) >= 2
 
 \* cfg: the parsed namespace, flattened: a function from keys (level \o <<name>>) to values
 CfgHas(cfg, key) == key \in DOMAIN cfg
@@ -325,7 +340,8 @@ APositional == /\ pc = "argv" /\ toks # << >> /\ Head(toks).k = "pos"
 \* ActionTypeHint.__call__ for --name=value (_typehints.py:521-552); required positionals have no option string
 AOption == /\ pc = "argv" /\ toks # << >> /\ Head(toks).k = "opt"
            /\ LET tk == Head(toks) IN
-                IF HasAction(cs, lvl, tk.n) /\ ~ActionOf(cs, lvl, tk.n).pos
+                IF AlgAmbiguous(cs, lvl, tk.n) THEN Fail("reject")        \* "ambiguous option" raised by an enclosing parser
+                ELSE IF HasAction(cs, lvl, tk.n) /\ ~ActionOf(cs, lvl, tk.n).pos
                 THEN LET val == Conv(ActionOf(cs, lvl, tk.n).t, tk.v, "argv") IN
                      IF val = Bad THEN Fail("reject")
                      ELSE /\ cfg' = Put(cfg, lvl \o <<tk.n>>, val) /\ toks' = Tail(toks)
@@ -438,11 +454,22 @@ AllLevels == UNION {{SubSeq(cs.leaves[i].path, 1, k) : k \in 0..Len(cs.leaves[i]
 HiddenButRequiredByPython == \E l \in AllLevels : \E i \in 1..Len(LvlParams(cs, l)) : PrivOptNoDefault(LvlParams(cs, l)[i])
 
 (***************************************************************************)
+(* The second recorded deviation (finding "abbrev-ambiguity"): an option   *)
+(* of a sub-command (function of a list / dict, method of a class) whose   *)
+(* name is a proper prefix of two option strings of an enclosing parser    *)
+(* (--p: --print_config, --print_shtab;  --f: --flag, --flag+ of a List    *)
+(* parameter of the class) is rejected as ambiguous although the           *)
+(* sub-command has exactly that option.                                    *)
+(***************************************************************************)
+AmbiguousSubOption == LET as == RefAsgs(cs) IN \E i \in 1..Len(as) : as[i].o /\ AlgAmbiguous(cs, as[i].lvl, as[i].n)
+Deviation == HiddenButRequiredByPython \/ AmbiguousSubOption
+
+(***************************************************************************)
 (* Invariants (checked by MC_Cli on every state of the bounded instance)   *)
 (***************************************************************************)
 Done == pc = "done"
-\* C12, design level: the algorithm produces an outcome the property allows (outside the recorded deviation)
-AlgRefinesRef == (Done /\ ~HiddenButRequiredByPython) => AlgOutcome \in RefOutcomes(cs)
+\* C12, design level: the algorithm produces an outcome the property allows (outside the recorded deviations)
+AlgRefinesRef == (Done /\ ~Deviation) => AlgOutcome \in RefOutcomes(cs)
 \* the clauses of the property, on the outcome
 OneCall == (Done /\ out = "ok") =>
              \/ Len(calls) = 1 /\ LvlKind(cs, lvl) = "fn"
